@@ -261,13 +261,28 @@ func RunPlans(r *ev.Run, scenarios []*Scenario, plans []Plan) *Summary {
 	ev.Parallel(len(plans), jobs, func(i int) {
 		p := plans[i]
 		pj, _ := json.Marshal(p)
-		out, err := runChild("-mc-child", string(pj))
 		var pr PlanResult
-		if b := extract(out, "MCRESULT"); b != nil {
-			json.Unmarshal(b, &pr)
-		} else {
-			pr.Plan = p
-			pr.Error = fmt.Sprintf("child produced no result: %v; stdout tail: %s", err, tail(string(out), 1500))
+		for attempt := 0; attempt < 2; attempt++ {
+			out, err := runChild("-mc-child", string(pj))
+			pr = PlanResult{}
+			if b := extract(out, "MCRESULT"); b != nil {
+				json.Unmarshal(b, &pr)
+			} else {
+				pr.Plan = p
+				pr.Error = fmt.Sprintf("child produced no result: %v; stdout tail: %s", err, tail(string(out), 1500))
+			}
+			// A replay divergence can be caused by a real-time event (a 10 s timer of the
+			// code under test firing in an execution that was starved of CPU): run the plan
+			// once more before reporting a machinery error.
+			nondet := false
+			for _, f := range pr.Failures {
+				if strings.HasPrefix(f.Err, "NONDETERMINISM") {
+					nondet = true
+				}
+			}
+			if !nondet {
+				break
+			}
 		}
 		// confirm failures by replay (twice, identical verdict)
 		for k := range pr.Failures {
